@@ -487,6 +487,10 @@ func init() {
 					lexRec(prefix+a, n+1)
 				}
 			}
+			for _, s := range []string{`'it\'s'`, `"it\'s"`, `'say \"hi\"'`, `"say \"hi\""`, `'a\'{{b}}'`, `'\''`, `"\'"`} {
+				g.Count("kind LEX corpus")
+				g.Emit("LEX " + hx(s))
+			}
 			lexRec("", 0)
 			for i := 0; i < nLex; i++ {
 				var sb strings.Builder
